@@ -373,8 +373,10 @@ def body_nd(case, ctx):
     r = R()
     out = _run_index(idx, [a, b], case, backend)
     sw = _run_index(idx, [b, a], dict(case, chunks=case["chunks"][::-1] if case.get("chunks") else None), backend)
-    fin = np.isfinite(out)
     r.label("metamorphic", "index=" + idx, "backend=" + backend, "dtype=" + str(a.dtype), "p=%s" % ("0" if p == 0 else "pos" if p > 0 else "neg"))
+    if out.shape != a.shape or sw.shape != a.shape:
+        return r.fail("nd.%s.shape" % idx, "bands %s -> output %s, swapped output %s (%s)" % (a.shape, out.shape, sw.shape, backend))
+    fin = np.isfinite(out)
     with np.errstate(all="ignore"):
         af, bf = a.astype("float64"), b.astype("float64")
         nonneg = (af >= 0) & (bf >= 0)
@@ -384,8 +386,6 @@ def body_nd(case, ctx):
         if m.any():
             q = tuple(int(i) for i in np.argwhere(m)[0])
             r.fail("nd.%s.range" % idx, "cell %s: %s(%r, %r) = %r outside [-1,1] (%s)" % (q, idx, a[q].item(), b[q].item(), float(out[q]), backend))
-        if out.shape != sw.shape:
-            return r.fail("nd.%s.shape" % idx, "shapes %s vs swapped %s" % (out.shape, sw.shape))
         okc = (out == -sw) | (np.isnan(out) & np.isnan(sw))     # -0.0 == +0.0: equal bands give +0 in both orders
         if not okc.all():
             q = tuple(int(i) for i in np.argwhere(~okc)[0])
@@ -468,7 +468,7 @@ BODIES = {"formula": body_formula, "nd": body_nd, "tc": body_tc}
 
 # ---------------------------------------------------------------- strategies
 
-DT_POOL = ["uint8", "uint8", "uint16", "uint16", "int16", "int32", "float32", "float32", "float64", "float64",
+DT_POOL = ["uint8", "uint8", "uint16", "uint16", "int16", "int32", "float32", "float32", "float32", "float64", "float64", "float64",
            "int8", "uint32", "int64", "uint64"]
 L_VALUES = [1.0, 1.0, 0.0, -1.0, 0.5, -0.5, 0.25, -0.75, 0.125, -0.3, 0.1]
 C_VALUES = [6.0, 7.5, 0.0, 1.0, 2.5, 0.5, 3.0, 2.4]
